@@ -269,6 +269,14 @@ func init() {
 		},
 		"verif/symx.SoftOpaque": func(fr *frame, a []value) value { fr.i.softOpaque = a[0].(bool); return nil },
 		// Cost(): SSA instructions executed so far on this path (a deterministic cost meter)
+		"verif/symx.PrintedCount": func(fr *frame, a []value) value { return len(fr.i.path.printed) },
+		"verif/symx.PrintedAt": func(fr *frame, a []value) value {
+			k := int(asInt64(a[0]))
+			if k < 0 || k >= len(fr.i.path.printed) {
+				return ""
+			}
+			return fr.i.path.printed[k]
+		},
 		"verif/symx.Cost": func(fr *frame, a []value) value { return int(fr.i.fuelStart - fr.i.fuel) },
 		"verif/symx.SoftFuel": func(fr *frame, a []value) value {
 			fr.i.softFuelAt = fr.i.fuel - asInt64(a[0])
